@@ -9,7 +9,7 @@
 From Coq Require Import List NArith ZArith Bool.
 From Gemato Require Import Py.PyStr Py.PyPath Gen.Tables Model.Entry Model.Text Model.OpenPGP Model.Hash
   Model.FS Model.Verify Model.Loader Model.Update Exec.Sx Exec.Oracles Exec.Tree.
-From Gemato Require Import Proofs.Frame Proofs.SaveAll Proofs.OnePath Proofs.UpdPres.
+From Gemato Require Import Proofs.Frame Proofs.SaveAll Proofs.OnePath Proofs.UpdPres Proofs.OnePathFrame.
 Import ListNotations.
 Open Scope N_scope.
 
@@ -103,3 +103,13 @@ Theorem C10_loader_wellformed : forall (L : hashlib) decompress pgp_verify w top
   new_loader L decompress pgp_verify w top opts ac ax = Ok l -> W l /\ o_profile (l_opts l) = o_profile opts.
 Proof. exact new_loader_W. Qed.
 Print Assumptions C10_loader_wellformed.
+
+(* the single-path API touches nothing but the file entries for that very path: in every Manifest loaded before the call,
+   all other entries (IGNORE, DIST, TIMESTAMP, and file entries for any other path) are the same entries in the same order;
+   at most one entry is new *)
+Theorem C10_single_path_frame : forall (L : hashlib) decompress pgp_verify path w l ty hs l',
+  update_one_path L decompress pgp_verify w l path ty hs = Ok l' ->
+  forall mp m, get_m l mp = Some m ->
+  exists m' extra, get_m l' mp = Some m' /\ others path mp m' = others path mp m ++ extra /\ (length extra <= 1)%nat.
+Proof. exact update_one_path_framed. Qed.
+Print Assumptions C10_single_path_frame.
